@@ -7,6 +7,7 @@
      make  : Date(UTC, y, m, d, h, mi, s).time()     for valid fields
      text  : Date(t).toUTCString(fmt)
      read  : Date(String)                            ok = 1 valid, 0 invalid (NaN), 2 valid but outside +-1e14 s
+     pread : Date(text, format)                      (format-driven reading; TZ=UTC)
 
    asl::Date resolves an instant to the millisecond.  For an instant off the millisecond grid the fields / text may be
    those of the instant rounded to the nearest millisecond or of the truncated one, but all of them must belong to
@@ -36,6 +37,7 @@ MakeOK(e) == /\ ValidDate(e.f[1], e.f[2], e.f[3]) /\ e.f[4] \in 0..23 /\ e.f[5] 
              /\ I3(e.i) = InstantOf(e.f[1], e.f[2], e.f[3], e.f[4], e.f[5], e.f[6])
 TextOK(e) == LET i == I3(e.i) IN InRange(i) /\ e.fmt \in Formats /\ \E r \in Resolved(i) : e.t = FormatResolved(e.fmt, r)
 ReadOK(e) == LET r == Read(e.t) IN r.ok => (e.ok = 1 /\ Near(I3(e.i), r.i, 100))
+PatReadOK(e) == LET r == ReadPattern(e.t, e.f) IN r.ok => (e.ok = 1 /\ I3(e.i) = r.i)
 
 TInit == l = 1
 TStep ==
@@ -47,6 +49,7 @@ TStep ==
      \/ e.e = "make" /\ MakeOK(e)
      \/ e.e = "text" /\ TextOK(e)
      \/ e.e = "read" /\ ReadOK(e)
+     \/ e.e = "pread" /\ PatReadOK(e)
 
 TraceSpec == TInit /\ [][TStep]_l
 TraceAccepted == TLCGet("stats").diameter - 1 = Len(T)
